@@ -10,9 +10,9 @@ Definition b2n (b : bool) : N := if b then 1 else 0.
 Definition run_rt (db dflt : list quad) :=
   (gen_nq db, load_nq (gen_nq db), (gen_nt dflt, load_nt (gen_nt dflt)), (gen_ttl dflt, load_ttl (gen_ttl dflt))).
 
-(* classification of a database: (wf_db, known_dd, known_dd_ttl, known_ttl_annot) *)
+(* classification of a database: (wf_db, known_dd, known_dd_ttl) *)
 Definition run_class (db : list quad) :=
-  [b2n (wf_db db); b2n (known_dd db); b2n (known_dd_ttl db); b2n (known_ttl_annot db)].
+  [b2n (wf_db db); b2n (known_dd db); b2n (known_dd_ttl db)].
 
 Definition run_load (fmt : N) (text : str) : tres :=
   if fmt =? 0 then TOk (load_nq text) else if fmt =? 1 then TOk (load_nt text) else load_ttl text.
@@ -36,7 +36,7 @@ Definition run_fn (f : N) (x : str) : list str :=
          | None => [[0]]
          end
   | 7 => tokenize_ttl x
-  | 8 => match clean_ttl x with Some v => [[1]; v] | None => [[0]] end
+  | 8 => [clean_ttl x]
   | 9 => [ets x]
   | 10 => let '(a, b, c) := split_qt x in [a; b; c]
   | 11 => [resolve x]
